@@ -43,35 +43,37 @@ modelled_bits! {
 }
 
 modelled_bits! {
-    #[kani::unwind(7)]
+    #[kani::unwind(19)]
+    #[kani::stub(alloc::string::String::push, crate::model::st_string_push_ascii)]
     fn c11_a_binstr() {
         reset_bitstore();
         let n: usize = kani::any();
-        kani::assume(n <= 4);
+        kani::assume(n <= 16);
         let content: u32 = kani::any();
         let mut bv = util::BitVec::new();
-        fill(&mut bv, n, content, 4);
+        fill(&mut bv, n, content, 16);
         read_dst(true);
         let s = bv.format_binstr();
         assert!(s.len() == n, "bit string is not one digit per bit");
         let i: usize = kani::any();
         kani::assume(i < n);
         assert!(s.as_bytes()[i] == if bit(content, n, i) { b'1' } else { b'0' }, "bit string digit differs from the assembled bit");
-        kani::cover!(n == 4 && i == 3, "last of 4 digits");
+        kani::cover!(n == 16 && i == 15, "last of 16 digits");
         kani::cover!(n == 1 && s.as_bytes()[0] == b'1');
         std::mem::forget(bv); std::mem::forget(s);
     }
 }
 
 modelled_bits! {
-    #[kani::unwind(7)]
+    #[kani::unwind(19)]
+    #[kani::stub(alloc::string::String::push, crate::model::st_string_push_ascii)]
     fn c11_a_hexstr() {
         reset_bitstore();
         let n: usize = kani::any();
-        kani::assume(n <= 4);
+        kani::assume(n <= 16);
         let content: u32 = kani::any();
         let mut bv = util::BitVec::new();
-        fill(&mut bv, n, content, 4);
+        fill(&mut bv, n, content, 16);
         read_dst(true);
         let s = bv.format_hexstr();
         assert!(s.len() == (n + 3) / 4, "hex string is not ceil(bits / 4) digits long");
@@ -86,7 +88,7 @@ modelled_bits! {
         let c = s.as_bytes()[d];
         let got = if c >= b'0' && c <= b'9' { c - b'0' } else if c >= b'a' && c <= b'f' { c - b'a' + 10 } else { 255 };
         assert!(got == want, "hex digit differs from the assembled bits (or padding is not zero)");
-        kani::cover!(n == 3 && s.len() == 1, "non nibble-multiple length padded");
+        kani::cover!(n == 14 && s.len() == 4, "non nibble-multiple length padded");
         kani::cover!(got >= 10, "letter digit");
         std::mem::forget(bv); std::mem::forget(s);
     }
